@@ -30,6 +30,14 @@ Proof.
   destruct (length c <=? 12) eqn:E; [apply Nat.leb_le in E; lia|reflexivity].
 Qed.
 
+(* a command ending with NUL cannot be represented in the zero-padded field: it is refused
+   (before the fix: commit for F17 it was framed, and read back without the NUL) *)
+Theorem C07_frame_rejects_trailing_nul : forall cks P c p, frame cks P (c ++ [0%N]) p = None.
+Proof.
+  intros cks P c p. unfold frame, pad_command, ends_nul. rewrite rev_app_distr. cbn.
+  now destruct (length (c ++ [0%N]) <=? 12).
+Qed.
+
 (* 2. chunking independence of the reader: it equals the parser of the concatenated stream *)
 Theorem C07_chunking_independent : forall cks P, magic4 P -> forall cs cs',
   concat cs = concat cs' ->
@@ -55,17 +63,13 @@ Proof.
   exact (roundtrip_sequence cks P H1 H2 msgs fs HF [] chunks fuel E Hf).
 Qed.
 
-(* The hypothesis [no_trailing_nul] inside [admissible] cannot be dropped (known finding
-   F17: the zero-padded wire format cannot represent a command ending in NUL). *)
-Theorem C07_roundtrip_refuted :
-  exists c p f, length c <= 12 /\ frame sha256d_4 the_params c p = Some f /\
-    fst (parse_one sha256d_4 the_params f) <> Delivered c p.
-Proof.
-  exists [97; 98; 0]%N, [1]%N.
-  destruct (frame sha256d_4 the_params [97; 98; 0]%N [1]%N) as [f|] eqn:E; [|vm_compute in E; discriminate].
-  exists f. split; [cbn; lia|]. split; [reflexivity|].
-  vm_compute in E. injection E as <-. vm_compute. discriminate.
-Qed.
+(* ... and for EVERYTHING frame accepts (payload below 2^32 bytes and within the receiver's size
+   limits): no side condition on the command is left *)
+Theorem C07_roundtrip_full : forall cks P, cks4 cks -> magic4 P ->
+  forall c p rest f,
+  (N.of_nat (length p) < 4294967296)%N -> oversized P c (N.of_nat (length p)) = false ->
+  frame cks P c p = Some f -> parse_one cks P (f ++ rest) = (Delivered c p, rest).
+Proof. exact roundtrip_stream_full. Qed.
 
 (* 4. a payload is delivered only if its checksum matches the header's *)
 Theorem C07_delivered_only_if_checksum : forall cks P, magic4 P -> forall s c p rest,
@@ -125,7 +129,8 @@ Print Assumptions C07_frame_layout.
 Print Assumptions C07_chunking_independent.
 Print Assumptions C07_roundtrip_any_chunking.
 Print Assumptions C07_roundtrip_sequence.
-Print Assumptions C07_roundtrip_refuted.
+Print Assumptions C07_roundtrip_full.
+Print Assumptions C07_frame_rejects_trailing_nul.
 Print Assumptions C07_delivered_only_if_checksum.
 Print Assumptions C07_checksum_decides.
 Print Assumptions C07_badchecksum_keeps_sync.
